@@ -26,6 +26,10 @@ type ttModelEntry struct {
 	typ          int
 	agedSince    bool // AgeEntries was called since this entry was stored
 	probedSince  bool // probed since the last AgeEntries
+	// netAged: ageing rounds since the store that have not been taken back by
+	// a later probe hit (a hit makes the entry one round younger; a hit on an
+	// entry that is not aged earns no credit for later rounds)
+	netAged int
 	storedAtStep int
 }
 
@@ -254,6 +258,11 @@ func RunTT(sc *Scenario) *TTOut {
 					if !res.agedSince {
 						mustNot = true
 						out.Probes["collision_equal_fresh"]++
+					} else if res.netAged == 0 {
+						// every ageing round has been taken back by a later hit:
+						// the running search has just used this entry
+						mustNot = true
+						out.Probes["collision_equal_aged_and_refreshed"]++
 					} else if !res.probedSince {
 						must = true
 						out.Probes["collision_equal_aged"]++
@@ -306,6 +315,9 @@ func RunTT(sc *Scenario) *TTOut {
 				}
 				if f[0] == "probe" {
 					res.probedSince = true
+					if res.netAged > 0 {
+						res.netAged--
+					}
 				}
 			}
 		case "age":
@@ -313,6 +325,7 @@ func RunTT(sc *Scenario) *TTOut {
 			for _, e := range m.slots {
 				e.agedSince = true
 				e.probedSince = false
+				e.netAged++
 			}
 		case "clear":
 			out.Faults["F12_clear"]++
